@@ -164,6 +164,9 @@ func runC10(c *core.C) {
 					if _, ok := post[recvKey]; !ok {
 						fail("async-without-receipt", "async receive left no receipt")
 					}
+					if strings.Join(appDiff, "\x00") != strings.Join(wantWrites, "\x00") {
+						fail("async-lost-or-extra-writes", fmt.Sprintf("asynchronous receive: application keys changed %q, expected %q (state changes of an asynchronous receive persist)", appDiff, wantWrites))
+					}
 				case "tx-error":
 					if !anySentinel && !(anyAsync && len(names) > 1) {
 						fail("unexpected-tx-error", fmt.Sprintf("the receive transaction failed (%s) although no payload returned the sentinel and no multi-payload async occurred", rr))
